@@ -16,32 +16,36 @@ Ref == Recs[1].ref
 OKContents == {"R1", "R2", "R3", "R4", "K1", "K2"}
 Returned(c) == IF c \in OKContents THEN c ELSE "empty"
 
-\* state threaded through one history: <<disk, passed, failingClauses>>
-RECURSIVE Walk(_, _, _, _, _)
-Walk(evs, j, disk, passed, bad) ==
+\* state threaded through one history: <<disk, passed, obj, failingClauses>>  (obj: what the long-lived engine object parsed last)
+RECURSIVE Walk(_, _, _, _, _, _)
+Walk(evs, j, disk, passed, obj, bad) ==
   IF j > Len(evs) THEN bad
   ELSE LET e == evs[j] IN
     IF e.bad THEN bad \cup {"exception-or-mutation"}
-    ELSE IF e.op = "write" THEN Walk(evs, j + 1, [disk EXCEPT ![e.p] = e.c], passed, bad)
+    ELSE IF e.op = "write" THEN Walk(evs, j + 1, [disk EXCEPT ![e.p] = e.c], passed, obj, bad)
     ELSE IF e.op = "load" THEN
-         Walk(evs, j + 1, disk, IF e.p = "none" THEN "empty" ELSE Returned(disk[e.p]), bad)
+         Walk(evs, j + 1, disk, IF e.p = "none" THEN "empty" ELSE Returned(disk[e.p]), obj, bad)
     ELSE IF e.op = "classify" THEN
-         Walk(evs, j + 1, disk, passed,
+         Walk(evs, j + 1, disk, passed, obj,
               IF e.obs = Ref["classify|" \o passed \o "|" \o e.t] THEN bad ELSE bad \cup {"HistoryIndependent"})
     ELSE IF e.op = "match" THEN
-         Walk(evs, j + 1, disk, passed,
+         Walk(evs, j + 1, disk, passed, obj,
               IF e.obs = Ref["match|" \o e.c \o "|" \o e.t] THEN bad ELSE bad \cup {"EngineMatch"})
     ELSE IF e.op = "eval" THEN
-         Walk(evs, j + 1, disk, passed,
+         Walk(evs, j + 1, disk, passed, obj,
               IF e.obs = Ref["eval|" \o e.e \o "|" \o e.t] THEN bad ELSE bad \cup {"CachesTransparent"})
-    ELSE Walk(evs, j + 1, disk, passed, bad)      \* clear: no effect on what decides
+    ELSE IF e.op = "objparse" THEN Walk(evs, j + 1, disk, passed, e.c, bad)
+    ELSE IF e.op = "objmatch" THEN
+         Walk(evs, j + 1, disk, passed, obj,
+              IF obj # "none" /\ e.obs = Ref["objmatch|" \o obj \o "|" \o e.t] THEN bad ELSE bad \cup {"ObjHistoryIndependent"})
+    ELSE Walk(evs, j + 1, disk, passed, obj, bad)      \* clear: no effect on what decides
 
 VARIABLE i
 Init == i = 1 /\ TLCSet(1, {})
 Next == /\ i < Len(Recs)
         /\ i' = i + 1
         /\ LET r == Recs[i + 1]
-               bad == Walk(r.events, 1, r.disk0, "empty", {}) IN
+               bad == Walk(r.events, 1, r.disk0, "empty", "none", {}) IN
            IF bad = {} THEN TRUE ELSE TLCSet(1, TLCGet(1) \cup {<<r.id, bad>>})
 Spec == Init /\ [][Next]_i
 Done == /\ PrintT(<<"REJECTED", TLCGet(1)>>)
